@@ -615,7 +615,7 @@ def violation(eng, res, cfg, xs, hyps, what, kind):
     tried = 0
     intc = [z3.IsInt(x) for x in xs.values()]
     for extra in (intc, []):
-        st, mm = eng.satisfiable(list(hyps) + extra, timeout_ms=30000)
+        st, mm = eng.satisfiable(list(hyps) + extra, timeout_ms=90000)
         if st != "sat":
             continue
         vals = {f"{i[0]}|{i[1]}": float(symx.model_value(mm, x)) for i, x in xs.items()}
